@@ -31,4 +31,34 @@ let op_classify t =
       | _ -> "classify radiotap-decode-not-done" in
   model ^ " ## " ^ spec
 
-let ops : (S.t * (S.t array -> S.t)) list = [ "classify", op_classify ]
+let msg_name m = match int_of_z m with 1 -> "Message 1" | 2 -> "Message 2" | 4 -> "Message 3" | 8 -> "Message 4" | _ -> "Invalid"
+
+let wpa_str (o : M.wpa_data M.outcome) = match o with
+  | M.Err _ -> "err"
+  | M.Ok d -> sp "%s,%s,%s,%s,%s,%s,%s,%s,%s,%s,%s,%s,%s,%s" (zs d.M.w_version) (zs d.M.w_type) (zs d.M.w_length)
+      (zs d.M.w_descriptor) (zs d.M.w_information) (zs d.M.w_key_length) (zs d.M.w_replay)
+      (hex_of_bytes d.M.w_nonce) (hex_of_bytes d.M.w_iv) (hex_of_bytes d.M.w_rsc) (hex_of_bytes d.M.w_id)
+      (hex_of_bytes d.M.w_mic) (zs d.M.w_key_data_length) (hex_of_bytes d.M.w_key_data)
+
+let fault_str r f = match r with M.Done v -> f v | M.Fault (_, z) -> "FAULT@" ^ zs z | M.OutOfFuel -> "OUTOFFUEL"
+
+let op_eapol t =
+  let rt = t.(1) = "1" in
+  let a = ints_of_hex t.(2) in
+  let rd = rd_strict_arr a in
+  match M.get_wifi_frame rd (z_of_int (Array.length a)) rt with
+  | M.Done (M.Err _) -> "eapol cls=err ## eapol cls=err"
+  | M.Done (M.Ok f) ->
+    let hs = fault_str (M.check_wpa_handshake f) (fun o -> match o with M.Ok _ -> "1" | M.Err _ -> "err") in
+    let msg = fault_str (M.check_wpa_message f) (fun m -> zs m ^ "," ^ msg_name m) in
+    let kdl = fault_str (M.get_wpa_key_data_length f) (fun v -> if int_of_z v < 0 then "err0" else zs v) in
+    let data = fault_str (M.get_wpa_data f) wpa_str in
+    let model = sp "eapol hs=%s msg=%s kdl=%s data=%s" hs msg kdl data in
+    let is_hs = M.s_is_handshake f in
+    let sm = M.s_message f in
+    let skdl = if is_hs then zs (M.be16 f.M.f_body (z_of_int 105)) else "err0" in
+    let spec = sp "eapol hs=%s msg=%s,%s kdl=%s data=%s" (if is_hs then "1" else "err") (zs sm) (msg_name sm) skdl (wpa_str (M.s_wpa_data f)) in
+    model ^ " ## " ^ spec
+  | _ -> "eapol cls=FAULT"
+
+let ops : (S.t * (S.t array -> S.t)) list = [ "classify", op_classify; "eapol", op_eapol ]
